@@ -122,3 +122,33 @@ def rename_fields(F):
             for f, (kn, _) in zip(fs, kv['fields']):
                 if f.get('name') != kn:
                     F.fields_renamed.append((path, f.get('name'), kn)); f['name'] = kn
+
+
+_INTS = {'u8': 8, 'u16': 16, 'u32': 32, 'u64': 64, 'u128': 128, 'usize': 64, 'i8': 8, 'i16': 16, 'i32': 32, 'i64': 64, 'i128': 128, 'isize': 64}
+
+
+def normalize_int_conversions(F):
+    """`usize::from(x)` / `x.into()` between primitive integer types is the lossless cast `x as usize`: in functions whose reviewed version has no
+    such call, the call is rewritten to the cast statement it is equivalent to, so the two spellings present the same MIR to every rule."""
+    p = os.path.join(VERIF, 'tables', 'known_locals.json')
+    if not os.path.exists(p): return
+    keep = set(json.load(open(p)).get('int_conversion_fns') or [])
+    F.conversions_normalized = []
+    for name, b in F.bodies.items():
+        if name in keep: continue
+        n = 0
+        for blk in b['blocks']:
+            t = blk['term']
+            if t['t'] != 'call' or t['f'].get('fn') not in ('std::convert::From::from', 'std::convert::Into::into') or len(t['args']) != 1 or t.get('to') is None: continue
+            a = t['args'][0]
+            sty = a.get('p', {}).get('ty') if a.get('o') in ('copy', 'move') else (a.get('ty', {}) or {}).get('s')
+            dty = t['dest'].get('ty')
+            if sty not in _INTS or dty not in _INTS: continue
+            signed_s, signed_d = sty[0] == 'i', dty[0] == 'i'
+            lossless = (signed_s == signed_d and _INTS[dty] >= _INTS[sty]) or (not signed_s and signed_d and _INTS[dty] > _INTS[sty])
+            if not lossless: continue
+            blk['stmts'].append({'s': 'assign', 'lhs': t['dest'], 'rv': {'r': 'cast', 'k': 'IntToInt', 'a': a,
+                                 'to': {'s': dty, 't': {'k': 'int', 's': signed_d, 'bits': _INTS[dty]}}}, 'span': t['span']})
+            blk['term'] = {'t': 'goto', 'to': t['to']}
+            n += 1
+        if n: F.conversions_normalized.append((name, n))
